@@ -86,6 +86,8 @@ type bTxn struct {
 	Byz       string
 	Faulted   bool
 	Delivered bool
+	Observed  bool
+	CoreURI   string
 	Puts      int
 	ReplayOf  int
 }
@@ -115,16 +117,17 @@ type bWorld struct {
 	monCh, toCh chan time.Time
 	pendingTick string
 
-	dids    []*bDID
-	ops     []*bOp
-	byKey   map[string]*bOp
-	txns    []*bTxn
-	byCore  map[string]*bTxn
-	curObs  *bTxn
-	curCut  []*operation.QueuedOperation
-	curInfo *protocol.AnchoringInfo
-	failAt  int
-	wIdx    int
+	dids     []*bDID
+	ops      []*bOp
+	byKey    map[string]*bOp
+	txns     []*bTxn
+	byCore   map[string][]*bTxn
+	obsQueue []*bTxn
+	curObs   *bTxn
+	curCut   []*operation.QueuedOperation
+	curInfo  *protocol.AnchoringInfo
+	failAt   int
+	wIdx     int
 
 	clientsDone []bool
 	opsPerDID   int
@@ -134,12 +137,12 @@ type bWorld struct {
 	faultsOff bool
 
 	ticks, clockMoves, byzTxns int
-	nontrivial                  bool
-	samples                     []string
-	stateSeq                    uint64
-	mark                        int
-	expectedWindows             map[[2]int64]bool
-	tvSeen                      int
+	nontrivial                 bool
+	samples                    []string
+	stateSeq                   uint64
+	mark                       int
+	expectedWindows            map[[2]int64]bool
+	tvSeen                     int
 }
 
 type bContext struct{ w *bWorld }
@@ -167,7 +170,7 @@ func runWorldB(rc *RunCtx, prop string) *RunResult {
 	simenv.ErrExpired = operationparser.ErrOperationExpired
 	simenv.ErrEarly = operationparser.ErrOperationEarly
 
-	w := &bWorld{k: k, prop: prop, start: time.Now(), byKey: map[string]*bOp{}, byCore: map[string]*bTxn{}, rates: map[string]int{}, failAt: -1,
+	w := &bWorld{k: k, prop: prop, start: time.Now(), byKey: map[string]*bOp{}, byCore: map[string][]*bTxn{}, rates: map[string]int{}, failAt: -1,
 		expectedWindows: map[[2]int64]bool{}}
 
 	// ---- swarm configuration
@@ -226,8 +229,15 @@ func runWorldB(rc *RunCtx, prop string) *RunResult {
 			return nil, nil
 		}
 
-		if t := w.byCore[addr]; t != nil {
-			w.curObs = t
+		// The observer works through delivered transactions strictly in delivery order, and the first read
+		// of a transaction is its core index file: advance to the first pending transaction with that address.
+		for i, t := range w.obsQueue {
+			if t.CoreURI == addr {
+				w.curObs = t
+				w.obsQueue = w.obsQueue[i+1:]
+
+				break
+			}
 		}
 
 		if w.fault("cas.rerr") {
@@ -1072,7 +1082,8 @@ func (w *bWorld) onAnchor(t *txn.SidetreeTxn, _ []*operation.Reference) {
 	}
 
 	if ad, err := txnprovider.ParseAnchorData(t.AnchorString); err == nil {
-		w.byCore[ad.CoreIndexFileURI] = bt
+		w.byCore[ad.CoreIndexFileURI] = append(w.byCore[ad.CoreIndexFileURI], bt)
+		bt.CoreURI = ad.CoreIndexFileURI
 	}
 
 	w.txns = append(w.txns, bt)
@@ -1285,6 +1296,7 @@ func (w *bWorld) deliver() {
 
 	for _, i := range pick {
 		w.txns[i].Delivered = true
+		w.obsQueue = append(w.obsQueue, w.txns[i])
 		batch = append(batch, w.ledger.Txns[i])
 	}
 
@@ -1347,6 +1359,11 @@ func (w *bWorld) byzantineTxn() {
 		bt.ReplayOf = src
 		w.ledger.OnAnchor = nil
 		w.ledger.Append(w.ledger.Txns[src].AnchorString, nil, w.ledger.Txns[src].ProtocolVersion)
+
+		if ad, err := txnprovider.ParseAnchorData(w.ledger.Txns[src].AnchorString); err == nil {
+			w.byCore[ad.CoreIndexFileURI] = append(w.byCore[ad.CoreIndexFileURI], bt)
+			bt.CoreURI = ad.CoreIndexFileURI
+		}
 	}
 
 	w.ledger.OnAnchor = w.onAnchor
